@@ -10,8 +10,13 @@ ID="$1"; K="$2"; TIER="${3:-quick}"
 SRC="/tmp/wt-$ID"
 V="$(cd "$(dirname "$0")/.." && pwd)"
 P="$SRC/m$K.diff"; D="$SRC/m${K}_demo_test.go.txt"
+if [ ! -f "$P" ] && [ -f "$V/seeded/$ID-m$K/patch.diff" ]; then
+  # already stored: re-verify from /verif/seeded
+  mkdir -p "/tmp/verif-seedsrc-$$"; cp "$V/seeded/$ID-m$K/patch.diff" "/tmp/verif-seedsrc-$$/p.diff"; cp "$V/seeded/$ID-m$K/demo_test.go.txt" "/tmp/verif-seedsrc-$$/d.txt"
+  P="/tmp/verif-seedsrc-$$/p.diff"; D="/tmp/verif-seedsrc-$$/d.txt"
+fi
 [ -f "$P" ] && [ -f "$D" ] || { echo "seed_verify: $P or $D missing"; exit 2; }
-W="$(mktemp -d /tmp/verif-seed.XXXXXX)"; trap 'rm -rf "$W"' EXIT
+W="$(mktemp -d /tmp/verif-seed.XXXXXX)"; trap 'rm -rf "$W" "/tmp/verif-seedsrc-$$"' EXIT
 rsync -a --exclude .git /repo/ "$W/clean/"
 rsync -a --exclude .git /repo/ "$W/mut/"
 ( cd "$W/mut" && patch -p1 -s < "$P" ) || { echo "seed_verify: patch does not apply to /repo HEAD"; exit 3; }
@@ -30,7 +35,7 @@ VERIF_REPO="$W/mut" "$V/check" "$ID" "$TIER" > "$W/d.log" 2>&1; d=$?
 grep -E "^VIOLATION|^  signature|^$ID $TIER" "$W/d.log" | cut -c1-260 | head -8
 echo "seed_verify: ./check $ID $TIER against the change: exit=$d"
 O="$V/seeded/$ID-m$K"; mkdir -p "$O"
-cp "$P" "$O/patch.diff"; cp "$D" "$O/demo_test.go.txt"
+[ "$P" -ef "$O/patch.diff" ] || cp "$P" "$O/patch.diff" 2>/dev/null; [ "$D" -ef "$O/demo_test.go.txt" ] || cp "$D" "$O/demo_test.go.txt" 2>/dev/null
 sigs=$(grep "^  signature=" "$W/d.log" | sed 's/^  signature=//; s/ cases=.*//' | head -20 | python3 -c 'import sys,json; print(json.dumps([l.strip() for l in sys.stdin]))')
 python3 - "$O/meta.json" "$ID" "$K" "$TIER" "$d" "$sigs" <<'PY'
 import json,sys,os
